@@ -17,8 +17,8 @@ CHECKS = {
    note="Trusted: TLC; the harness' Go-value <-> raw-bytes conversion (encoding/binary); scalar values are opaque byte strings for the specification (their meaning is C20's subject); compositions the Go generics cannot express (Array(Tuple), LowCardinality(Nullable)) are not built."),
  "C02": dict(engine="Messages", category="model_checking", design_ref="DESIGN.md §5 C02",
    technique="the client's whole byte stream of a query parsed by TLC with the TLA+ field tables (Messages.tla: Query packet byte-exact) and the Wire.tla block decoder (Data packets, frames), recorded from real Dial+Do sessions (trace validation)",
-   text="500 (quick) / 6000 (thorough) sessions over every representative negotiated revision >= 54429 and all five compression settings with varied ids, bodies, connection- and query-level settings, parameters, secret, quota key, external data and 1-4 input rounds: TLC requires the bytes to be exactly one Query packet (= EncMsg of the caller's fields), the external block and a terminator, the input blocks in order and a terminator, each block one Data packet in one verified frame iff compression is on, and nothing else.",
-   note="Trusted: TLC; third-party CityHash/LZ4/ZSTD in the harness; library-chosen ClientInfo values (name, version, address, start time) are read back from the packet; revisions below 54429 are not exercised."),
+   text="500 (quick) / 6000 (thorough) sessions over every representative negotiated revision 50000..54500 and all five compression settings with varied ids, bodies, connection- and query-level settings, parameters, secret, quota key, external data and 1-4 input rounds: TLC requires the bytes to be exactly one Query packet (= EncMsg of the caller's fields), the external block and a terminator, the input blocks in order and a terminator, each block one Data packet in one verified frame iff compression is on, and nothing else.",
+   note="Trusted: TLC; third-party CityHash/LZ4/ZSTD in the harness; library-chosen ClientInfo values (name, version, address, start time) are read back from the packet; below revision 54429 the scripted server reads Query packets with a reader of the harness's own (the library's decoder refuses them)."),
  "C03": dict(engine="QueryLifecycle", category="model_checking", design_ref="DESIGN.md §5 C03",
    technique="TLA+ model of Do's receive loop (TLC exhaustive over bounded scripts) + scripted server streams replayed on the real client, callbacks and returned exception chain validated step by step by TLC (trace validation)",
    text="TLC checks Delivered (callback log = exactly the callbacks the consumed packets call for, in order), NilOnlyAfterEos and ExcReturned on the model; random well-formed scripts up to length 12 (quick) / 30 (thorough), every callback present or absent, a failing callback at every position, all compression modes and several revisions run on the real client; each receiver step's callbacks (with the script item whose rows the bound columns hold), the error class, the recovered exception chain and errors.Is for every code are validated against the specification.",
